@@ -16,6 +16,7 @@ import (
 	"time"
 
 	"github.com/gofrs/uuid"
+	"github.com/siyul-park/uniflow/pkg/node"
 	"github.com/siyul-park/uniflow/pkg/packet"
 	"github.com/siyul-park/uniflow/pkg/port"
 	"github.com/siyul-park/uniflow/pkg/process"
@@ -66,6 +67,10 @@ func workload05(r *rand.Rand, hist map[string]int) (desc []string, fail string, 
 			} else {
 				sb.Node = w.b
 			}
+			// the agent instruments the ports a symbol already knows
+			sb.In(node.PortIn)
+			sb.Out(node.PortOut)
+			sb.Out(node.PortError)
 			_ = agent.Load(sb)
 			syms = append(syms, sb)
 		}
@@ -73,6 +78,12 @@ func workload05(r *rand.Rand, hist map[string]int) (desc []string, fail string, 
 		hist["wl_agent"]++
 	}
 	base := len(engineGoroutines())
+	basePumps := 0
+	for _, g := range engineGoroutines() {
+		if strings.Contains(g, "pkg/packet.NewWriter.func") {
+			basePumps++
+		}
+	}
 
 	np := 1 + r.Intn(3)
 	var procs []*process.Process
@@ -246,7 +257,9 @@ func workload05(r *rand.Rand, hist map[string]int) (desc []string, fail string, 
 					pumps++
 				}
 			}
-			onlyTracerAndPumps = len(gs)-pumps <= base
+			// F-C05-d always leaves a writer pump behind (its drop notices are never read); tracer entries
+			// alone are a different residue
+			onlyTracerAndPumps = len(gs)-pumps <= base-basePumps && pumps > basePumps
 			if tracerMsg != "" {
 				return tracerMsg
 			}
